@@ -14,6 +14,7 @@ from __future__ import annotations
 import contextlib
 import io
 import json
+import os
 import random
 import shutil
 import tempfile
@@ -76,11 +77,19 @@ def check_slices(ctx: Ctx) -> None:
     ctx.extra["slice_alphabet_size"] = n_checked
 
 
-def run_history(scen: dict, case: dict, storage: str) -> dict:
+def run_history(scen: dict, case: dict, storage: str, pool: str | None = None) -> dict:
+    """pool: None = sequential; "thread" / "process" = every run of the history goes through a real pool of that kind
+    (calls are then ordered by the append-only cross-process log file)."""
     pdesc = pmap.tla_desc_to_py(scen["desc"])
-    build.reset_log()
     folder = tempfile.mkdtemp(prefix="pfverif_c06_")
     shutil.rmtree(folder)
+    logf = folder + "_calls.ndjson"
+    build.reset_log(logf if pool else None)
+    ex = None
+    if pool:
+        from concurrent.futures import ProcessPoolExecutor, ThreadPoolExecutor
+        ex = ThreadPoolExecutor(3) if pool == "thread" else ProcessPoolExecutor(3)
+    par = {"parallel": bool(pool), "executor": ex}
     shapes = ext_shapes(scen)
     evs: list[dict] = []
     try:
@@ -89,23 +98,28 @@ def run_history(scen: dict, case: dict, storage: str) -> dict:
         inp = pmap.inputs_to_py(scen["inputs"], {n: "list" for n, _ in scen["inputs"]})
         if case["kind"] == "reject":
             axis, key = case["req"]
-            e, _ = pmap.do_map(pl, pdesc, inp, run_folder=folder, storage=storage, parallel=False, cleanup=True,
+            e, _ = pmap.do_map(pl, pdesc, inp, run_folder=folder, storage=storage, **par, cleanup=True,
                                fixed_indices={axis: py_key(key)}, fixed_raw=[[axis, key]], load=False)
             evs += e
         else:
             for n, key in enumerate(case["parts"]):
-                e, res = pmap.do_map(pl, pdesc, inp, run_folder=folder, storage=storage, parallel=False, cleanup=(n == 0),
+                e, res = pmap.do_map(pl, pdesc, inp, run_folder=folder, storage=storage, **par, cleanup=(n == 0),
                                      fixed_indices={"i": py_key(key)}, fixed_raw=[["i", key]], load=False)
                 evs += e
                 if isinstance(res, Exception):
                     break
                 evs.append(pmap.ev(e="stored", disk=observe_disk(folder, shapes)))
             else:
-                e, _ = pmap.do_map(pl, pdesc, inp, run_folder=folder, storage=storage, parallel=False, cleanup=False)
+                e, _ = pmap.do_map(pl, pdesc, inp, run_folder=folder, storage=storage, **par, cleanup=False)
                 evs += e
     finally:
+        if ex is not None:
+            ex.shutdown(wait=True)
+        build.reset_log()
         shutil.rmtree(folder, ignore_errors=True)
-    return {"desc": scen["desc"], "inputs": scen["inputs"], "ev": evs, "meta": {"storage": storage, "case": case}}
+        with contextlib.suppress(FileNotFoundError):
+            os.unlink(logf)
+    return {"desc": scen["desc"], "inputs": scen["inputs"], "ev": evs, "meta": {"storage": storage, "case": case, "pool": pool or ""}}
 
 
 def run_learners(scen: dict, variant: str, seed: int) -> dict:
@@ -188,6 +202,11 @@ def run(ctx: Ctx) -> None:
             traces.append(run_history(scen, c, st))
             if not quick and c["kind"] == "parts" and k % 3 == 0:
                 traces.append(run_history(scen, c, storages[(k + 1) % 2]))
+        # the same histories through real pools (the partly filled arrays of a part are reopened by workers of the next run)
+        multi = [c for c in chosen if len(c["parts"]) >= 2]
+        for k, c in enumerate(multi[: (3 if quick else 18)]):
+            for pool in ("thread", "process"):
+                traces.append(run_history(scen, c, storages[(k + (pool == "process")) % 3], pool=pool))
     # learners: one SequenceLearner per function (and per key with split_independent_axes), executed element by element
     for sc in (["outer", "consumer", "multi"] if quick else ["outer", "zip", "consumer", "reduceother", "multi", "internalfirst"]):
         scen, _, _ = export(ctx, sc) if sc not in ("outer", "consumer", "reduceother", "internalfirst") or True else (None, None, None)
